@@ -25,6 +25,10 @@ type R6Case struct {
 	Bound   bool   `json:"bound,omitempty"`
 	RecvIf  int    `json:"recvif"` // interface index in the control message of the request
 	Mutated bool   `json:"mutated,omitempty"`
+	// Listen: "" (hand-built listener) | zone (opened by the server's own listen6 for ListenIP%<interface>:
+	// must behave as bound) | nozone (opened by listen6 without a zone: unbound, must get interface information)
+	Listen   string `json:"listen,omitempty"`
+	ListenIP string `json:"listenip,omitempty"` // "" (::) | ::1 | own (a global address of this host)
 }
 
 // GenR6 draws one case
@@ -41,7 +45,28 @@ func GenR6(t *rapid.T) R6Case {
 	c.Port = rapid.SampledFrom([]int{546, 547, 1024, 65535, 1}).Draw(t, "port")
 	c.Bound = rapid.Bool().Draw(t, "bound")
 	c.RecvIf = rapid.SampledFrom([]int{1, 2, 3, 4, 77}).Draw(t, "recvif")
+	if rapid.IntRange(0, 11).Draw(t, "real-listen") == 0 {
+		c.Listen = rapid.SampledFrom([]string{"zone", "nozone", "nozone"}).Draw(t, "listen-kind")
+		c.ListenIP = rapid.SampledFrom([]string{"", "::1", "own"}).Draw(t, "listen-ip")
+	}
 	return c
+}
+
+// ownIPv6 is a global IPv6 address of this host
+func ownIPv6() net.IP {
+	ifs, _ := net.Interfaces()
+	for _, i := range ifs {
+		if i.Flags&net.FlagLoopback != 0 || i.Flags&net.FlagUp == 0 {
+			continue
+		}
+		addrs, _ := i.Addrs()
+		for _, a := range addrs {
+			if n, ok := a.(*net.IPNet); ok && n.IP.To4() == nil && n.IP.IsGlobalUnicast() {
+				return n.IP
+			}
+		}
+	}
+	return nil
 }
 
 func feed6(cap6 *server.Capture6, dgram []byte, oob *ipv6.ControlMessage, peer *net.UDPAddr) (sent []server.Sent, panicked interface{}) {
@@ -100,7 +125,48 @@ func execR6(c R6Case, hs []handler.Handler6) (res core.Result) {
 	l2, _ := ifaces()
 	var cap6 *server.Capture6
 	boundIdx := 0
-	if c.Bound && l2 != nil {
+	if c.Listen != "" {
+		ip := net.IPv6unspecified
+		switch c.ListenIP {
+		case "own":
+			if ip = ownIPv6(); ip == nil {
+				res.Skipped = "no-own-ipv6-address"
+				return
+			}
+		case "":
+		default:
+			ip = net.ParseIP(c.ListenIP)
+		}
+		zone := ""
+		if c.Listen == "zone" {
+			if l2 == nil {
+				res.Skipped = "no-interface"
+				return
+			}
+			zone, boundIdx = l2.Name, l2.Index
+		}
+		var err error
+		var probed, ifInfo bool
+		for try := 0; try < 8; try++ {
+			port := 20000 + int(listenPort.Add(1)*7919%40000)
+			if tmp, e := net.ListenUDP("udp6", &net.UDPAddr{IP: net.IPv6loopback}); e == nil {
+				port = tmp.LocalAddr().(*net.UDPAddr).Port
+				tmp.Close()
+			}
+			cap6, probed, ifInfo, err = server.NewListening6(&net.UDPAddr{IP: ip, Port: port, Zone: zone}, hs)
+			if err == nil {
+				break
+			}
+		}
+		if err != nil {
+			res.Skipped = "cannot-listen"
+			return
+		}
+		if zone == "" && probed && !ifInfo {
+			res.Viol = core.Violate("C12/unbound-listener-without-interface-information", "listen address %v (no zone): the socket does not report the interface a datagram arrived on, so a reply to a link-local source cannot be pinned to it", ip)
+			return
+		}
+	} else if c.Bound && l2 != nil {
 		cap6 = server.NewCapture6(hs, l2)
 		boundIdx = l2.Index
 	} else {
